@@ -46,7 +46,7 @@ for capacity_kwh in (1.0, 10.0, 100.0, 1000.0):
     drawn = load.power_input
     delivered = -battery.power_input  # no power source: the battery feeds the bus
     rel = np.max(np.abs(delivered - drawn) / np.abs(drawn))
-    print(f"{capacity_kwh:12.0f} | {battery.rated_power!r:19} | {drawn[2]!r:20} | {delivered[2]!r:23} | {rel:.2e}")
+    print(f"{capacity_kwh:12.0f} | {battery.rated_power!r:19} | {float(drawn[2])!r:20} | {float(delivered[2])!r:23} | {rel:.2e}")
     if not rel <= TOLERANCE:
         violated = True
 
